@@ -45,6 +45,8 @@ func runC09(c *Ctx) {
 	c09HeadAndRaw(c)
 	c.Rule("C09.O13", "E5", "who may write the response's pending buffers (Response.buffer, Response.bodyBuffer): Write, writeChunk, eoncodeHead, Flush, flush, ReadFrom and the release path; every other method (WriteString, ...) goes through Write and inherits its guards (empty input, framing decision, accounting)", 20)
 	c09BufferWriters(c)
+	c.Rule("C09.O14", "E4,E5", "status and trailers are the handler's: WriteHeader records the status code without asking whether net/http has a text for it; the declared trailer names that eoncodeHead sets aside are canonicalised elements of the comma-separated Trailer field; flush reads the trailer values from the header when it emits them (a trailer is set after the body)", 3)
+	c09StatusAndTrailers(c)
 	c.Rule("C09.O12", "E4,E6", "WriteHeader keeps a Content-Length header only when it parsed without error to a value >= 0: every path from the parse that does not delete the field carries both outcomes", 1)
 	c09KeepsValidLength(c)
 	c.Rule("C09.O7", "E2-ext", "a buffer from Malloc(n), n != 0, is truncated or filled before it is the destination of Append/AppendString", 20)
@@ -539,6 +541,9 @@ func c09FinalFlush(c *Ctx, fl *ssa.Function) {
 					loopToks = append(loopToks, fmt.Sprintf("%q", s))
 				} else if e, isE := ir.Resolve(cs.Common.Args[1]).(*ssa.Extract); isE {
 					loopToks = append(loopToks, fmt.Sprintf("range#%d", e.Index))
+				} else if isTrailerValue(c, ir.Resolve(cs.Common.Args[1]), 0) {
+					// the value the header holds for the range key now (or the captured one)
+					loopToks = append(loopToks, "range#2")
 				} else {
 					loopToks = append(loopToks, "?")
 				}
@@ -1093,4 +1098,92 @@ func c09BufferWriters(c *Ctx) {
 			}
 		}
 	}
+}
+
+// c09StatusAndTrailers: O14.
+func c09StatusAndTrailers(c *Ctx) {
+	if wh := c.Fn("C09.O14", "(*nbhttp.Response).WriteHeader"); wh != nil {
+		fi := c.P.Info(wh)
+		bad := "WriteHeader does not record the status code"
+		for _, st := range c.P.StoresTo(wh, "nbhttp.Response.statusCode") {
+			if _, isParam := ir.Resolve(st.Val).(*ssa.Parameter); !isParam {
+				continue
+			}
+			bad = ""
+			if fi.HasFact(st, func(ft ir.Fact) bool {
+				b, ok := ft.Cond.(*ssa.BinOp)
+				if !ok {
+					return false
+				}
+				for _, v := range []ssa.Value{b.X, b.Y} {
+					if call, ok := ir.Resolve(v).(*ssa.Call); ok && c.P.CalleeName(&call.Call) == "net/http.StatusText" {
+						return true
+					}
+				}
+				return false
+			}) {
+				bad = "the status code is recorded at " + c.Pos(st) + " only when http.StatusText knows a text for it: a handler's WriteHeader(599) is dropped and the client decodes 200"
+			}
+		}
+		c.Cond(bad == "", "C09.O14", fnKey(c.P, wh, "status code recorded whatever its text"), c.FnPos(wh), "store not conditional on StatusText", bad)
+	}
+	if eh := c.Fn("C09.O14", "(*nbhttp.Response).eoncodeHead"); eh != nil {
+		bad := "no declared trailer name is set aside"
+		for _, b := range eh.Blocks {
+			for _, in := range b.Instrs {
+				mu, ok := in.(*ssa.MapUpdate)
+				if !ok || c.P.LoadedField(ir.Resolve(mu.Map)) != "nbhttp.Response.trailer" {
+					continue
+				}
+				if s, isS := constString(mu.Value); !isS || s != "" {
+					continue
+				}
+				call, isCall := ir.Resolve(mu.Key).(*ssa.Call)
+				if isCall && c.P.CalleeName(&call.Call) == "net/http.CanonicalHeaderKey" {
+					if bad == "no declared trailer name is set aside" {
+						bad = ""
+					}
+				} else {
+					bad = "the name set aside at " + c.Pos(in) + " is " + c.P.Desc(ir.Resolve(mu.Key)) + ", a whole Trailer field value as the handler wrote it: a comma-separated list becomes one malformed name, and a name in another case never matches the header key"
+				}
+			}
+		}
+		c.Cond(bad == "", "C09.O14", fnKey(c.P, eh, "declared trailer names canonicalised"), c.FnPos(eh), "keys are http.CanonicalHeaderKey(element)", bad)
+	}
+	if fl := c.Fn("C09.O14", "(*nbhttp.Response).flush"); fl != nil {
+		fi := c.P.Info(fl)
+		ok := false
+		for _, cs := range c.P.Calls(fl, func(name string, _ ir.CallSite) bool { return strings.HasSuffix(name, "Header).Get") }) {
+			if fi.InLoop(cs.In) && c.P.LoadedField(ir.Resolve(cs.Common.Args[0])) == "nbhttp.Response.header" {
+				ok = true
+			}
+		}
+		c.Cond(ok, "C09.O14", fnKey(c.P, fl, "trailer values read at flush time"), c.FnPos(fl), "Header.Get inside the trailer loop",
+			"flush emits the trailer values that were captured when the head was encoded (at the first Write): a trailer set after the body, which is what trailers are for, goes out empty")
+	}
+}
+
+// isTrailerValue: the range value, Header.Get(range key), or a phi of those.
+func isTrailerValue(c *Ctx, v ssa.Value, depth int) bool {
+	if depth > 4 {
+		return false
+	}
+	switch x := v.(type) {
+	case *ssa.Extract:
+		return x.Index == 2
+	case *ssa.Call:
+		if !strings.HasSuffix(c.P.CalleeName(&x.Call), "Header).Get") {
+			return false
+		}
+		e, ok := ir.Resolve(x.Call.Args[len(x.Call.Args)-1]).(*ssa.Extract)
+		return ok && e.Index == 1
+	case *ssa.Phi:
+		for _, e := range x.Edges {
+			if !isTrailerValue(c, ir.Resolve(e), depth+1) {
+				return false
+			}
+		}
+		return len(x.Edges) > 0
+	}
+	return false
 }
